@@ -132,7 +132,7 @@ func RunShard(a shardArgs) int {
 			}
 			if why != "" {
 				res.mu.Lock()
-				res.Abort, res.AbortCase = why, k
+				res.Abort, res.AbortCase, res.AbortSig = why, k, res.curHangSig
 				res.mu.Unlock()
 				writeOut()
 				// dump goroutines for the log, then leave
@@ -157,6 +157,9 @@ func RunShard(a shardArgs) int {
 			_, _ = pf.WriteAt([]byte(fmt.Sprintf("%-12d", k)), 0)
 		}
 		c := &C{PropID: a.Prop, Tier: a.Tier, Seed: a.Seed, K: k, R: CaseRand(a.Seed, a.Prop, k), res: res, Verbose: a.Verbose}
+		res.mu.Lock()
+		res.curHangSig = ""
+		res.mu.Unlock()
 		wmu.Lock()
 		curCase, caseStartCPU = k, cpuSeconds()
 		wmu.Unlock()
@@ -346,17 +349,26 @@ func supervise(pc *ParentCtx, race bool, shard, n int, out *ShardResult, mu *syn
 		if r != nil && r.Abort != "" {
 			k = r.AbortCase
 			// Re-run the case alone with 10x budget: only exceeding that is a hang.
-			ok := rerunAlone(pc, exe, race, k, 10)
+			// (A hang whose declared signature is a listed known finding is not re-run.)
+			sig := "hang-" + r.Abort
+			if r.AbortSig != "" {
+				sig = r.AbortSig
+			}
+			_, known := pc.Known.Lookup(p.ID, sig)
+			ok := false
+			if !known {
+				ok = rerunAlone(pc, exe, race, k, 10)
+			}
 			if !ok && p.CrashInconclusive {
 				pc.Inconclusive(fmt.Sprintf("case %d exceeded the %s budget (totality is not this property's subject): %s", k, r.Abort, tailFile(errF, 400)))
 				ok = true
 			}
 			mu.Lock()
 			if !ok {
-				out.Violations = append(out.Violations, Violation{Prop: p.ID, Sig: "hang-" + r.Abort, Case: k,
-					Msg:    fmt.Sprintf("case %d exceeded the %s budget alone with 10x margin (logical cost, not wall time)", k, r.Abort),
+				out.Violations = append(out.Violations, Violation{Prop: p.ID, Sig: sig, Case: k,
+					Msg:    fmt.Sprintf("case %d exceeded the %s budget (logical cost, not wall time; re-run alone with 10x margin unless the cause is a listed known finding)", k, r.Abort),
 					Detail: tailFile(errF, 4000)})
-				out.Cover["violations:hang-"+r.Abort]++
+				out.Cover["violations:"+sig]++
 			} else {
 				out.Slow = append(out.Slow, k)
 			}
